@@ -24,10 +24,20 @@ def jobs(unit, tier, only=None):
         unit.object_size(L, unit.scratch.dir)
         K = L + 3
         for m in methods:
+            if getattr(m, 'cross', False):
+                continue
             out.append(Job('c10_L%d_%s' % (L, m.id), 'FixedString<L>::' + m.call, 'cw_' + m.id,
                            fs.make_build(unit, m, L, K, False, methods), backend='sat',
                            unwind=K + L + 4, timeout=300 if tier == 'quick' else 2400, instance={'L': L, 'K': K},
                            bounded=None))
+        # cross-capacity members: the other operand is a FixedString<S2>
+        for S2 in fs.cross_caps(L, tier):
+            unit.object_size(S2, unit.scratch.dir)
+            for m in methods:
+                if getattr(m, 'cross', False) and not (S2 == L and m.only_diff):
+                    out.append(Job('c10_L%dx%d_%s' % (L, S2, m.id), 'FixedString<L>::' + getattr(m, 'disp', m.call), 'cw_' + m.id,
+                                   fs.make_build(unit, m, L, K, False, methods, S2=S2), backend='sat',
+                                   unwind=K + L + S2 + 4, timeout=300 if tier == 'quick' else 2400, instance={'L': L, 'K': K, 'S2': S2}, bounded=None))
     # the 255/256 length-type boundary (uint8_t / uint16_t length field): "light" contracts (invariant + safety, no content
     # ghosts) for the methods that finish there (measured); thorough tier only
     if tier == 'thorough' or os.environ.get('CV_C10_BIG'):
